@@ -33,12 +33,14 @@ func maxDevFor(ctx *core.Ctx) int {
 type codecStats struct {
 	cells, observable, unobservable int
 	evals                           int
+	regEvals                        int
+	regStates                       map[string]bool
 	blockers                        map[string]int
 	distinct                        map[string]bool
 }
 
 func newCodecStats() *codecStats {
-	return &codecStats{blockers: map[string]int{}, distinct: map[string]bool{}}
+	return &codecStats{blockers: map[string]int{}, distinct: map[string]bool{}, regStates: map[string]bool{}}
 }
 
 func (s *codecStats) coverage(rule string, cases []*ProgCase) core.Coverage {
